@@ -15,11 +15,14 @@ from wire import Typed
 ID = "C15"
 TABLES = ["schema", "functions"]
 BUDGET = {"quick": (4, 55), "thorough": (16, 400)}
-EXTRA_TARGETS = ["theories/Typed/SchemaChecks.vo", "theories/Typed/RoundtripTable.vo"]
+EXTRA_TARGETS = ["theories/Typed/SchemaChecks.vo", "theories/Typed/RoundtripTable.vo", "theories/Typed/UnionStable.vo"]
 GEN_OBLIGATIONS = [
     "Typed/RoundtripTable.v:Schema_table_wf (field names distinct, defaults / hooks on the types the proof needs, remove_colon classes colon-free)",
     "Typed/RoundtripTable.v:Schema_modelled_wf (every modelled class: required Type : Literal[its own string]; GenericResource.Type guarded)",
     "Typed/RoundtripTable.v:Schema_unions_count (248 written unions, 15 distinct)",
+    "Typed/UnionStable.v:TABLE_UNIONS_ok (every distinct union of the live classes is of a shape the stability lemmas cover)",
+    "Typed/UnionStable.v:TABLE_UNIONS_classified (13 by the shape argument, Resolvable[Union[int,str]] and ResolvableIPOrStrOrList "
+    "by their own lemmas)",
     "Typed/SchemaChecks.v:Schema_private_eq (classes with private attributes define __eq__)", "Typed/SchemaChecks.v:Schema_hooks",
     "Typed/SchemaChecks.v:Schema_extra", "Typed/SchemaChecks.v:Schema_resolvable",
 ]
@@ -42,8 +45,15 @@ ASSUMPTIONS = [
     "(accepts its own output unchanged) is CHECKED on every leaf of every generated model with TypeAdapter(type).validate_python",
     "a smart-mode Union is modelled as first-accepting-member (on the unions of the live classes the members are shape-disjoint or the "
     "first member wins anyway); the interpreter surface checks this against pydantic on every dumped model",
-    "union stability (hypothesis of C15_roundtrip) is not proved for the live table: the runner re-validates inside the model "
-    "(op 1521) on every generated dump, so an unstable union shows up as a failed model round trip",
+    "union stability (hypothesis of C15_roundtrip) is PROVED for the live table (Typed/UnionStable.v, C15_union_stability_live_schema) "
+    "from shape facts about pydantic-core's lax validators, each CHECKED on every node of every generated model (leaf_violations): "
+    "str accepts nothing but str / bytes-like input; str, int and datetime refuse a list; str refuses a dict",
+    "bytes-like input where a text is expected is OUTSIDE the domain (JSON / YAML data holds none): pydantic's lax str decodes it, and "
+    "then Resolvable[Union[int,str]] (bytearray(b'7') -> '7' -> 7) and ResolvableIPOrStrOrList (b'10.0.0.0/8' -> '10.0.0.0/8' -> "
+    "IPv4Network) do not round-trip (C15_int_str_fn_unstable_on_bytes, C15_ip_or_str_unstable_on_bytes; their antecedents are checked "
+    "against the running pydantic in extra_checks); the two residual premises of the theorem say exactly this and follow from 'the "
+    "oracle never accepts bytes for str' (the runner's instance declines: EUndefined).  The runner still re-validates inside the "
+    "model (op 1521) on every generated dump",
     "IPv6 networks are carried as their exploded text (C17's print6_full); str(IPv6Network) -- what ipaddress parses when handed a network "
     "object -- is the compressed spelling of the same network (checked per leaf)",
     "SemiStrictBool / Effect use str.lower() / str.capitalize(): modelled on ASCII; extra_checks verifies over all of Unicode that no "
@@ -118,9 +128,55 @@ def walk_erased(v):
 _ADAPTERS = {}
 
 
+def _core_adapter(t):
+    from pydantic import TypeAdapter
+    ta = _ADAPTERS.get(("core", t))
+    if ta is None:
+        ta = _ADAPTERS[("core", t)] = TypeAdapter(t)
+    return ta
+
+
+def core_refuses(t, v):
+    """pydantic-core's lax validator of t refuses v with a ValidationError -> None; anything else -> a description"""
+    from pydantic import ValidationError
+    try:
+        w = _core_adapter(t).validate_python(v)
+    except ValidationError:
+        return None
+    except Exception as e:  # noqa
+        return type(e).__name__
+    return "accepted: " + repr(w)[:80]
+
+
+def shape_violations(v):
+    """the shape premises of C15_union_stability_live_schema (Typed/UnionStable.v) on ONE node of an object graph:
+       core_str_takes_text_or_bytes   lax str accepts nothing but str / bytes-like input
+       core_str_refuses_list, core_int_refuses_list, core_datetime_refuses_list
+       core_str_refuses_dict          (a model instance is checked through the shallow dict of its fields)"""
+    from pydantic import BaseModel
+    bad = []
+    if isinstance(v, (list, tuple)):
+        v = list(v)
+        for name, t in (("core_str_refuses_list", str), ("core_int_refuses_list", int), ("core_datetime_refuses_list", datetime.datetime)):
+            r = core_refuses(t, v)
+            if r is not None:
+                bad.append([name, repr(v)[:120], r])
+    elif isinstance(v, (dict, BaseModel)):
+        d = dict(v)
+        r = core_refuses(str, d)
+        if r is not None:
+            bad.append(["core_str_refuses_dict", repr(d)[:120], r])
+    elif not isinstance(v, (str, bytes, bytearray)):
+        r = core_refuses(str, v)
+        if r is not None:
+            bad.append(["core_str_takes_text_or_bytes", repr(v)[:120], r])
+    return bad
+
+
 def leaf_violations(m):
     """hypothesis check: every scalar leaf of the object graph is accepted back, unchanged, by the validator of its own type
-    (pydantic-core: str, int, bool, date, datetime; and the network / bytes objects by pycfmodel's validators)"""
+    (pydantic-core: str, int, bool, date, datetime; and the network / bytes objects by pycfmodel's validators); and every node
+    of the graph meets the shape premises of the union-stability theorem (shape_violations)"""
     from pydantic import BaseModel, TypeAdapter
     import pycfmodel.model.types as T
     kinds = {str: str, int: int, bool: bool, datetime.date: datetime.date, datetime.datetime: datetime.datetime,
@@ -128,6 +184,7 @@ def leaf_violations(m):
     bad = []
 
     def visit(v):
+        bad.extend(shape_violations(v))
         if isinstance(v, BaseModel):
             for k in type(v).model_fields:
                 visit(getattr(v, k))
@@ -198,7 +255,7 @@ def staged_limited(x):
 
 class RoundtripSurface(core.Surface):
     name = "CFModel(**m.model_dump()) == m"
-    theorem = "C15_roundtrip_template"
+    theorem = "C15_roundtrip_template_no_union_hypothesis (C15_roundtrip_template with union stability proved)"
     shrinkable = False      # a hang (time limit) would be re-run for every shrink candidate
 
     def impl(self, x):
@@ -519,13 +576,46 @@ def cases(rng, tier, shard, nshards):
 
 def extra_checks(tier, seed, stats, broken):
     """(1) every leaf kind / class of the generated schema occurred in the generated templates; (2) ASCII case mapping decides the
-    validators that use str.lower()"""
+    validators that use str.lower(); (3) the shape premises of the union-stability theorem on fixed samples; (4) the facts about
+    pydantic behind the two bytes witnesses"""
     want = schemagen.leaf_kinds_in_schema()
     seen = {k[len("tag:leaf:"):] for k in stats.dist if k.startswith("tag:leaf:")}
     missing = sorted(k for k in want if k not in seen)
     if missing and stats.evaluations > 200:
         yield {"sig": "uncovered-field-types", "surface": "harness", "theorem": "coverage of the generated schema", "tags": ["coverage"],
                "input": {"uncovered": missing}, "impl": None, "model": None, "shard": None, "crash": True}
+    # (3) the shape premises on fixed samples of every kind of value (beyond the nodes of the generated models)
+    net4, net6 = ipaddress.IPv4Network("10.0.0.0/8"), ipaddress.IPv6Network("2001:db8::/32")
+    samples = [None, True, False, 0, 1, -1, 2 ** 64, 1.0, 1.5, float("nan"), datetime.date(2020, 1, 2), datetime.datetime(2020, 1, 2, 3, 4, 5),
+               net4, net6, [], ["a"], [1], ["5"], [[1]], [None], [b"a"], [{"a": 1}], [datetime.datetime(2020, 1, 1)], ["2020-01-01T00:00:00"], [0.5],
+               {}, {"a": 1}, {"Ref": "x"}, {"Fn::Sub": "a"}, {"a": "b", "c": ["d"]}, {"1": 1}, (), ("a",), (1, 2)]
+    stale = [b for v in samples for b in shape_violations(v)]
+    if stale:
+        yield {"sig": "union-shape-premise", "surface": "harness", "theorem": "C15_union_stability_live_schema (shape premises)",
+               "tags": ["union-premise"], "input": {"violated": stale[:20]}, "impl": None, "model": None, "shard": None, "crash": True}
+    # (4) the antecedents of C15_int_str_fn_unstable_on_bytes / C15_ip_or_str_unstable_on_bytes are facts about the running pydantic
+    #     (if they stop being true the two residual premises may be dischargeable: report, so that the statement is revisited)
+    import pycfmodel.model.types as T
+
+    def _val(t, v):
+        try:
+            return _core_adapter(t).validate_python(v)
+        except Exception as e:  # noqa
+            return type(e).__name__
+    facts = {
+        "str(b'7') == '7'": _val(str, b"7") == "7",
+        "str(bytearray(b'7')) == '7'": _val(str, bytearray(b"7")) == "7",
+        "int(bytearray(b'7')) refused": _val(int, bytearray(b"7")) == "ValidationError",
+        "int('7') == 7": _val(int, "7") == 7,
+        "str(b'10.0.0.0/8') == '10.0.0.0/8'": _val(str, b"10.0.0.0/8") == "10.0.0.0/8",
+        "ResolvableIntOrStr: bytearray(b'7') -> '7' -> 7": _val(T.ResolvableIntOrStr, bytearray(b"7")) == "7" and _val(T.ResolvableIntOrStr, "7") == 7,
+        "ResolvableIPOrStrOrList: b'10.0.0.0/8' -> '10.0.0.0/8' -> IPv4Network":
+            _val(T.ResolvableIPOrStrOrList, b"10.0.0.0/8") == "10.0.0.0/8" and _val(T.ResolvableIPOrStrOrList, "10.0.0.0/8") == net4,
+    }
+    if not all(facts.values()):
+        yield {"sig": "bytes-witness-stale", "surface": "harness", "theorem": "C15_int_str_fn_unstable_on_bytes / C15_ip_or_str_unstable_on_bytes",
+               "tags": ["union-premise"], "input": {"no_longer_true": sorted(k for k, ok in facts.items() if not ok)}, "impl": None, "model": None,
+               "shard": None, "crash": True}
     letters = set("truefalse")
     odd = [hex(c) for c in range(128, 0x110000) if not 0xD800 <= c < 0xE000 and any(ch in letters for ch in chr(c).lower())]
     if odd:
